@@ -90,6 +90,44 @@ def _rec_of(v, field):
     return isinstance(v, tuple) and v and v[0] == "rec" and v[1] == ("field", field)
 
 
+def _exporter_contexts(ctx, model, mp):
+    """"running the generated code" includes handing the exported tree to
+    Python's compile(): the node kinds that occur on either side of an
+    assignment (Name, Attribute, Subscript, Starred, List, Tuple) have a
+    required field `ctx`, which ast.fix_missing_locations does not supply.
+    Every such node the exporter builds must be given one (oracle: the
+    _fields of the interpreter's own ast classes)."""
+    need = sorted(c.__name__ for c in vars(ast).values()
+                  if isinstance(c, type) and issubclass(c, ast.expr)
+                  and "ctx" in getattr(c, "_fields", ()))
+    missing = []
+    n_sites = 0
+    for c in [mp] + model.subclasses(mp):
+        if c.module is not mp.module:
+            continue
+        for st in ast.walk(c.node):
+            if isinstance(st, ast.Call) and isinstance(st.func, ast.Attribute) \
+                    and isinstance(st.func.value, ast.Name) and \
+                    st.func.value.id == "ast" and st.func.attr in need:
+                n_sites += 1
+                cls_ = getattr(ast, st.func.attr)
+                pos = list(cls_._fields).index("ctx")
+                given = any(k.arg == "ctx" for k in st.keywords) or \
+                    len(st.args) > pos or any(k.arg is None for k in st.keywords)
+                if not given:
+                    missing.append((c, st))
+    ctx.floor("context-carrying ast nodes built by the exporter", n_sites, 4)
+    c0, st0 = missing[0] if missing else (mp, mp.node)
+    kinds = sorted({st.func.attr for _, st in missing})
+    ctx.ob("X2/exporter/ast-nodes-carry-ctx", not missing, c0.module.loc(st0),
+           f"all {n_sites} Name/Attribute/Subscript/List/Tuple nodes are built "
+           "with a ctx" if not missing else
+           f"the exporter builds ast.{', ast.'.join(kinds)} without the required "
+           "field 'ctx': compile(ast.fix_missing_locations(ast.Expression("
+           "to_python_ast(x + y))), ...) raises TypeError (required field "
+           "\"ctx\" missing from Name), so the tree cannot be run")
+
+
 def _exporter(ctx, model):
     mp = model.cls(f"{IAST}:PymbolicToASTMapper")
     ops = ast_ops()
@@ -107,6 +145,7 @@ def _exporter(ctx, model):
         n_pairs += 1
         check_attr_existence(ctx, "X1", model, mp, n, mem, dedupe)
     ctx.floor("exporter (mapper, node) pairs", n_pairs, 20)
+    _exporter_contexts(ctx, model, mp)
 
     # the fold helper
     hm = model.lookup(mp, "_map_multi_children_op")
